@@ -407,7 +407,7 @@ def arrays_len(*xs):
     if len(ns) > 1:
         ns.discard(1)
     if len(ns) != 1:
-        raise Unsupported("cannot determine common array length")
+        raise Unsupported(f"cannot determine common array length of {[(type(x).__name__, len(getattr(x, "e", []))) for x in xs]}")
     return ns.pop()
 
 
